@@ -207,6 +207,12 @@ class Histories(BoundedCheck):
                     out.append(Violation('with strict=True updates of existing names keep working', 'c09.strict-blocks-existing', here, 'accepted', str(raised)[:80]))
             else:
                 res.cover('ok')
+                if op[0] in ('setitem', 'setlabel', 'setslice', 'replace_values') and op[1] not in index_before:
+                    out.append(Violation('a single-variable assignment to an unknown name raises and leaves every series unchanged', f'c09.unknown-name-accepted:{op[0]}',
+                                         here, 'KeyError', 'accepted', 'unknown_name_raises_KeyError'))
+                new_attrs = set(c.__dict__) - attrs_before
+                if op[0] in ('setitem', 'setlabel', 'setslice', 'replace_values', 'values') and new_attrs:
+                    out.append(Violation('item, label and bulk assignment never create attributes', f'c09.assignment-created-attribute:{op[0]}', here, 'none', sorted(new_attrs)))
                 for k in c.index:
                     if k not in created:
                         created[k] = c.__dict__['_' + k].dtype if isinstance(c.__dict__['_' + k], np.ndarray) else None
@@ -306,7 +312,10 @@ class LabelAccess(BoundedCheck):
             except Exception as ex:  # noqa: BLE001
                 bad('obj[name, a:b:s] = v writes exactly those positions', f'c10.set-slice-raises:{type(ex).__name__}', (a, b, step), 'stored', repr(ex)[:80])
         # absent labels
-        for absent in ('__absent__', 99999, -99999, 3.75):
+        # absent labels, including hashable containers: a tuple is one label (it must not be matched element by element against the span)
+        tuple_absent = [('__absent__', 1), (labels[0],), tuple(['__x__'] + [x for x in labels[1:]])]
+        tuple_absent = [x for x in tuple_absent if all(not (isinstance(lab, tuple) and lab == x) for lab in labels)]
+        for absent in ['__absent__', 99999, -99999, 3.75] + tuple_absent:
             res.cover('absent')
             before = c.X.copy()
             for what, fn in (('get', lambda: c['X', absent]), ('set', lambda: c.__setitem__(('X', absent), 1.0)),
@@ -324,6 +333,40 @@ class LabelAccess(BoundedCheck):
                         type(ex).__name__, 'absent_label')
             if not same(c.X, before):
                 bad('an absent label never aliases another period', 'c10.absent-aliases', absent, before.tolist(), c.X.tolist(), 'absent_label')
+        # the same addressing on models and linkers, including their bookkeeping variables (status / iterations are variables like any other)
+        class P(fsic.BaseModel):
+            ENDOGENOUS = ['Y']
+            EXOGENOUS = ['Z']
+            NAMES = ENDOGENOUS + EXOGENOUS
+            CHECK = ENDOGENOUS
+
+        class Lk(fsic.BaseLinker):
+            ENDOGENOUS = ['Q']
+            NAMES = ENDOGENOUS
+            CHECK = ENDOGENOUS
+        for kind in ('model', 'linker'):
+            for var, val, val2 in (('status', 'E', 'S'), ('iterations', 7, 9), ('Y' if kind == 'model' else 'Q', 2.5, 3.5)):
+                for i, lab in enumerate(labels):
+                    if lab is None:
+                        continue
+                    res.nontrivial.add((case['span'], n, kind, var, i))
+                    res.evaluations += 1
+                    try:
+                        o = P(span) if kind == 'model' else Lk({'A': P(span)}, name='_')
+                        start = o[var].tolist()
+                        o[var, lab] = val
+                        want = [val if j == i else start[j] for j in range(n)]
+                        got = o[var].tolist()
+                        back = o[var, lab]
+                        if got != want or back != val or getattr(o, var).tolist() != want:
+                            bad('a value written through a label is read back unchanged through every other path', f'c10.model-set-label:{kind}:{var}', lab, want, got)
+                        o[var, lab:lab] = val2
+                        if o[var].tolist() != [val2 if j == i else start[j] for j in range(n)]:
+                            bad('obj[name, a:b:s] = v writes exactly positions pos(a)..pos(b)', f'c10.model-set-slice:{kind}:{var}', lab, val2, o[var].tolist())
+                    except Exception as ex:  # noqa: BLE001
+                        bad('obj[name, label] = v addresses exactly the element at the label position (models, linkers, every variable incl. status / iterations)',
+                            f'c10.model-set-label-raises:{kind}:{var}:{type(ex).__name__}:{case["span"]}', lab, 'stored', repr(ex)[:80])
+                        break
         # solve_period(label) == solve_t(position) for every span type (C05)
         class M(fsic.BaseModel):
             ENDOGENOUS = ['Y']
@@ -408,6 +451,11 @@ class CopyIndependence(BoundedCheck):
                     d[k] = v.tolist()
             else:
                 d[k] = copy.deepcopy(v) if not callable(v) else None
+        if hasattr(o, 'eval'):
+            try:
+                d['eval(EV)'] = repr(o.eval('EV'))
+            except Exception as ex:  # noqa: BLE001
+                d['eval(EV)'] = type(ex).__name__
         return repr(d)
 
     @staticmethod
@@ -418,6 +466,7 @@ class CopyIndependence(BoundedCheck):
             ('add_attribute', lambda o: o.add_attribute('extra', [1])),
             ('span', lambda o: o.span.append(99) if isinstance(o.span, list) else None),
             ('index-list', lambda o: o.index.append('ghost')),
+            ('eval-after-add', lambda o: (o.add_variable('EV', 4.0), o.eval('EV * 2'))),
         ]
         if kind != 'container':
             muts += [('status', lambda o: o.status.__setitem__(1, 'E')), ('names-list', lambda o: o.names.append('ghost2')),
@@ -452,6 +501,15 @@ class CopyIndependence(BoundedCheck):
                 obj.solve(failures='ignore', max_iter=3)
         if case['pre'] >= 2:
             obj.add_variable('P', 1.0)
+        if case['pre'] >= 1:
+            # instance-level state edited before the copy is taken: the copy carries it (a copy is not a fresh instance of the class)
+            if kind == 'mixin':
+                obj.aliases['inc'] = 'Y'
+                obj.preferred_names.append('cons')
+            if kind != 'container':
+                obj.check.append('G')
+                obj.lags = 3
+            obj.note = ['ad hoc']
         if route == 'copy':
             other = obj.copy()
         elif route == 'copy.copy':
@@ -460,6 +518,8 @@ class CopyIndependence(BoundedCheck):
             other = copy.deepcopy(obj)
         elif kind in ('model', 'mixin'):
             other = obj.__class__(list(range(5)), G=1.0, a=0.5)
+            if case['pre'] >= 1 and kind == 'mixin':
+                other.aliases['inc'] = 'Y'
         elif kind == 'linker':
             Model = type(obj.submodels['A'])
             other = obj.__class__({'A': Model(list(range(5)), G=1.0, a=0.5), 'B': Model(list(range(5)), G=2.0, a=0.25)})
